@@ -35,9 +35,9 @@ import socketserver
 
 logging.disable(logging.CRITICAL)
 
-START, STOP, REQUEST, STOP_BUSY, START_PORT_TAKEN = 0, 1, 2, 4, 5
+START, STOP, REQUEST, STOP_BUSY, START_PORT_TAKEN, START_THREAD_FAIL = 0, 1, 2, 4, 5, 6
 OPNAME = {0: "start", 1: "stop", 2: "request", 3: "tick", 4: "stop_while_handler_blocks",
-          5: "start_while_port_is_taken"}
+          5: "start_while_port_is_taken", 6: "start_while_thread_creation_fails"}
 
 
 # ============================================================================ real-server histories
@@ -198,6 +198,46 @@ def run_history(kind, h):
                     raised = 1
                 else:
                     expect_running = 1 if o == START else 0
+            elif o == START_THREAD_FAIL:
+                # start() while the OS refuses a new thread: socket(), bind() succeed, Thread.start() raises once
+                mod = S if kind == "tftp" else H
+                real_threading = mod.threading
+                armed = [True]
+
+                class _FailingThread(threading.Thread):
+                    def start(self):
+                        if armed[0]:
+                            armed[0] = False
+                            raise RuntimeError("cannot start new thread")
+                        return super().start()
+                shim = types.SimpleNamespace(**{k: getattr(threading, k) for k in dir(threading) if not k.startswith("__")})
+                shim.Thread = _FailingThread
+                done = []
+
+                def call_start():
+                    try:
+                        srv.start()
+                        done.append(0)
+                    except RuntimeError:
+                        done.append(1)
+                    except BaseException:      # noqa
+                        done.append(2)
+                mod.threading = shim
+                try:
+                    th = threading.Thread(target=call_start, daemon=True)
+                    th.start()
+                    th.join(5.0)
+                finally:
+                    mod.threading = real_threading
+                if th.is_alive():
+                    hang = 1
+                    baseline.add(th)
+                elif done and done[0] == 2:
+                    raised = 1
+                else:
+                    served = 1 if (done and done[0] == 1) else 0       # "the call raised"
+                    if done and done[0] == 0:
+                        expect_running = 1
             elif o == START_PORT_TAKEN:
                 # start() while a foreign socket holds the port: bind fails; the call must raise (unless the server
                 # is already running), release everything it took, and leave the object as it was
@@ -758,6 +798,13 @@ class C20(Check):
             for h in ([START_PORT_TAKEN, START, REQUEST, STOP], [START, START_PORT_TAKEN, STOP, START_PORT_TAKEN, START, REQUEST],
                       [START_PORT_TAKEN, START_PORT_TAKEN, STOP, START, STOP]):
                 yield {"kind": "seq", "srv": kind, "h": h}
+        # start() while thread creation fails after the bind succeeded; then stop / start / request
+        for kind in ("tftp", "http"):
+            for h in ([START_THREAD_FAIL, STOP], [START_THREAD_FAIL, STOP, START, REQUEST, STOP],
+                      [START, START_THREAD_FAIL, STOP, START_THREAD_FAIL, STOP, START, REQUEST]):
+                yield {"kind": "seq", "srv": kind, "h": h}
+            if kind == "tftp":
+                yield {"kind": "seq", "srv": kind, "h": [START_THREAD_FAIL, START_THREAD_FAIL, START, REQUEST, STOP]}
         # stop() while a request handler blocks on the main thread (costs ~1.5 s each)
         yield {"kind": "seq", "srv": "tftp", "h": [START, STOP_BUSY]}
         yield {"kind": "seq", "srv": "tftp", "h": [START, REQUEST, STOP_BUSY, START, REQUEST]}
@@ -864,8 +911,22 @@ class C20(Check):
             if c["kind"] == "conc" and m[0] == o[0] and m[1] == o[1] and set(o[2]) <= set(m[2]) and o[2]:
                 # nondeterministic outcome: the implementation's finals must be among the model's
                 m = [m[0], m[1], list(o[2])]
+            if (c["kind"] == "seq" and c["srv"] == "http" and START_THREAD_FAIL in c["h"] and len(r) > 3
+                    and self.canon(o) == r[3] and self.canon(o) != m):
+                # the implementation does what the KNOWN bug variant of the model does (HttpServer.start without
+                # clean-up when Thread.start() fails): the finding is reported through `holds`, it is not a
+                # disagreement between model and code
+                m = r[3]
             res.append((c, o, m, common.names(r[1]), common.names(r[2]), r[3:]))
         return res
+
+    def match_known(self, entry, case, failed):
+        # HttpServer.start leaves the listening socket bound when Thread.start() raises
+        return (entry.get("id") == "D24" and isinstance(case, dict) and case.get("kind") == "seq"
+                and case.get("srv") == "http" and START_THREAD_FAIL in case.get("h", ())
+                and set(failed) <= {"failed_start_leaves_state", "stop_releases", "start_brings_up",
+                                    "no_call_raises_or_hangs", "requests_served_iff_running",
+                                    "start_raises_iff_it_fails", "state_stable_between_calls"})
 
     def line(self, c, obs):
         srv = 0 if c.get("srv") == "tftp" else 1
